@@ -34,13 +34,13 @@ impl GeneratorType for GhostGen {
 
 /// Scripted reader: each call nondeterministically delivers k >= 1 bytes, reports a
 /// transient interruption, fails hard, or signals end of stream; after `max` events: EOF.
-struct ScriptReader { delivered: u64, watch: u64, wrote: Option<u8>, hard_err: bool, interrupts: u32, steps: u32, max: u32 }
+struct ScriptReader { delivered: u64, watch: u64, wrote: Option<u8>, hard_err: bool, interrupts: u32, steps: u32, max: u32, eof: bool }
 impl Read for ScriptReader {
     fn read(&mut self, buf: &mut [u8]) -> std::io::Result<usize> {
         self.steps += 1;
         let ev: u8 = if self.steps > self.max { 0 } else { kani::any() };
         match ev {
-            0 => Ok(0),
+            0 => { self.eof = true; Ok(0) }
             1 => { self.hard_err = true; Err(ErrorKind::Other.into()) }
             2 => { self.interrupts += 1; Err(ErrorKind::Interrupted.into()) }
             _ => {
@@ -61,7 +61,7 @@ impl Read for ScriptReader {
 fn check_script(max: u32) {
     let watch: u64 = kani::any();
     let mut g = GhostGen { total: 0, watch, seen: None, finalized: 0 };
-    let mut r = ScriptReader { delivered: 0, watch, wrote: None, hard_err: false, interrupts: 0, steps: 0, max };
+    let mut r = ScriptReader { delivered: 0, watch, wrote: None, hard_err: false, interrupts: 0, steps: 0, max, eof: false };
     let res = hash_stream_common(&mut g, &mut r);
     match res {
         Err(GeneratorOrIOError::IOError(_)) => {
@@ -69,6 +69,7 @@ fn check_script(max: u32) {
         }
         Err(GeneratorOrIOError::GeneratorError(e)) => {
             assert!(!r.hard_err, "stream.hard_error_is_reported");
+            assert!(r.eof, "stream.reads_until_the_reader_signals_end_of_stream (a short read is not the end)");
             assert!(e == GeneratorError::BucketsAreHalfEmpty, "stream.result_is_the_generator_result");
             assert!(g.total == r.delivered, "stream.fed_exactly_the_delivered_byte_count");
             assert!(g.seen == r.wrote, "stream.fed_exactly_the_delivered_bytes");
@@ -115,7 +116,7 @@ fn ob_lying_reader() {
 #[kani::proof]
 #[kani::unwind(4)]
 fn ob_hash_stream_for_empty() {
-    let mut r = ScriptReader { delivered: 0, watch: 0, wrote: None, hard_err: false, interrupts: 0, steps: 0, max: 0 };
+    let mut r = ScriptReader { delivered: 0, watch: 0, wrote: None, hard_err: false, interrupts: 0, steps: 0, max: 0, eof: false };
     let res = super::hash_stream_for::<crate::hashes::Short, _>(&mut r);
     assert!(matches!(res, Err(GeneratorOrIOError::GeneratorError(GeneratorError::TooSmallInput))), "stream.hash_stream_for.empty_stream_is_too_small");
 }
